@@ -462,7 +462,7 @@ def record_natural(seed, chans, initwin, pktsize, nwrites=6, maxwrite=None,
             n = int.from_bytes(pl[5:9], 'big') if t == 93 else 0
             last_in[side] = ch
             log.append(('in', side, (t, ch, n, selfpause.get(ch, 0)), None))
-        elif name == 'pkt_done':
+        elif name in ('pkt_done', 'pkt_handled'):
             ch = last_in[side]
             snap = {'sp': selfpause.get(ch, 0)}
             if ch is not None:
